@@ -66,6 +66,14 @@ def strategy(tier):
         par = {}
         if rel == "scale":
             par["c"] = [draw(st.sampled_from([-3, -2, -1, 2, 3])) for _ in range(k)]
+            pure = all(sum(order_key(s_)) == 1 for s_ in p["terms"])
+            if pure and p["repr"] != "sympy" and draw(st.integers(0, 2)) == 0:
+                # "weak perturbation" class: the original problem has perturbations of order 1e-9 (all entries between
+                # 2e-10 and 4e-9, i.e. far above the library's absolute tolerance 1e-12) and the scale factors bring them
+                # back to order one, so that every comparison happens at the scale of the transformed problem
+                p = dict(p, den=p["den"] * 2**30)
+                par["c"] = [c_ * 2**30 for c_ in par["c"]]
+                par["tiny_original"] = True
         elif rel == "permute":
             par["perm"] = list(draw(st.permutations(range(k))))
         elif rel == "power":
@@ -277,6 +285,8 @@ def check_case(case, enforce_all=False):
     out = Outcome()
     p = case["problem"]
     out.labels = bd_checks.labels_for(p) + [f"relation={case['relation']}", "mode=hermitian" if p["hermitian"] else "mode=nonhermitian"]
+    if case["par"].get("tiny_original"):
+        out.labels.append("weak-perturbation-original")
     from props.c05 import in_k1_class
 
     if not p["hermitian"] and in_k1_class(p):
